@@ -530,6 +530,26 @@ func runC15(c *Ctx) {
 				okS, bad := allOrigins(ci.Common().Args[0], oIsValue(stream))
 				c.obI("R15.6", ci, "decoder-reads-the-stream-itself", okS, "the consumer's decoder is constructed over the reader it was given", "the decoder reads "+describeOrigin(bad))
 			}
+			// … and for EVERY destination: a decoding consumer (JSON, XML, YAML) has no way round its decoder — what it stores
+			// is what the decoder accepted (one well-formed document; errors for truncated input; a nil destination refused)
+			if cd.outer == "rt.JSONConsumer" || cd.outer == "rt.XMLConsumer" {
+				for _, ci := range allCalls(f) {
+					n := calleeName(ci.Common())
+					if strings.HasSuffix(n, ".NewDecoder") && !ci.Common().IsInvoke() {
+						continue
+					}
+					// (only the raw byte readers of the standard library are judged: a constructor kept in a variable, a new
+					// helper … may well build the decoder)
+					if !(strings.HasPrefix(n, "io.") || strings.HasPrefix(n, "io/ioutil.") || strings.HasPrefix(n, "bufio.") || n == "(*bytes.Buffer).ReadFrom") {
+						continue
+					}
+					for _, a := range ci.Common().Args {
+						if a == ssa.Value(stream) || (types.IsInterface(a.Type()) && someOrigin(a, oIsValue(stream)) && !strings.Contains(strings.ToLower(n), "log")) {
+							c.obD("R15.6", ci, "stream-read-by-the-decoder-only", false, "the stream of a decoding consumer is handed to its decoder and to nothing else", n+" reads the stream beside the decoder: what it yields is stored without having been decoded")
+						}
+					}
+				}
+			}
 		}
 		// reflect.Value.Bytes needs a SLICE of bytes (a byte array only when addressable, which a payload passed by value is
 		// not): it is reached only behind Kind() == Slice and an element kind of Uint8
